@@ -20,6 +20,7 @@ type memFile struct {
 	Name    string `json:"name"`
 	Content string `json:"content"`
 	Dir     bool   `json:"dir,omitempty"` // a directory in the file's place (the "unreadable" fault)
+	Link    string `json:"link,omitempty"` // a symbolic link to this target in the file's place
 }
 
 type loadOpts struct {
@@ -37,7 +38,20 @@ type loadOpts struct {
 	Profiles               []string `json:"profiles,omitempty"`
 	ProjectName            string   `json:"project_name,omitempty"`        // "" = "proj"
 	NameNotImperative      bool     `json:"name_not_imperative,omitempty"` // the name is only the caller's fallback
+	KnownExt               string   `json:"known_extension,omitempty"`     // "" | value | pointer: prototype registered for `x-known`
 }
+
+// knownExt is the Go type a caller registers for the `x-known` extension; the prototypes are shared by all loads.
+type knownExt struct {
+	Name string            `yaml:"name" json:"name"`
+	Tags map[string]string `yaml:"tags" json:"tags"`
+	List []string          `yaml:"list" json:"list"`
+}
+
+var (
+	knownExtValue   = knownExt{Name: "prototype", Tags: map[string]string{"proto": "type"}, List: []string{"p"}}
+	knownExtPointer = &knownExt{Name: "prototype", Tags: map[string]string{"proto": "type"}, List: []string{"p"}}
+)
 
 func optsFromBits(bits int) loadOpts {
 	return loadOpts{
@@ -61,6 +75,12 @@ func (o loadOpts) apply(lo *loader.Options) {
 	lo.SkipDefaultValues = o.SkipDefaultValues
 	if o.DiscardEnvFiles {
 		loader.WithDiscardEnvFiles(lo)
+	}
+	switch o.KnownExt {
+	case "value":
+		lo.KnownExtensions = map[string]any{"x-known": knownExtValue}
+	case "pointer":
+		lo.KnownExtensions = map[string]any{"x-known": knownExtPointer}
 	}
 	lo.Profiles = o.Profiles
 	name := o.ProjectName
@@ -99,6 +119,12 @@ func (lc loadCase) materialise() (string, func(), error) {
 		}
 		if err := os.MkdirAll(filepath.Dir(p), 0o755); err != nil {
 			return "", nil, err
+		}
+		if f.Link != "" {
+			if err := os.Symlink(f.Link, p); err != nil {
+				return "", nil, err
+			}
+			continue
 		}
 		if err := os.WriteFile(p, []byte(f.Content), 0o644); err != nil {
 			return "", nil, err
